@@ -30,6 +30,8 @@ func checkC02(c *Ctx) {
 	checkScanLoopRowState(c, "C02.R7")
 	c.Rule("C02.R8", "a delivered/dead/canceled message is stamped alike in both backends (the analysis of C13.R10): retention eligibility is measured from that stamp, so a message is pruned only when the configured window since the terminal transition has passed")
 	c.Rule("C02.R9", "a drop_oldest eviction takes one message per counted eviction: the one-at-a-time SQL evictor's DELETE is keyed by a single id (id = ? / id = (SELECT … LIMIT 1)), so a message disappears only in exchange for one that is stored")
+	c.Rule("C02.R10", "leased→queued only by nack or lease expiry: the only construct that takes a lease away without the holder's lease id is the sweep, whose statement tests state='leased' and lease_until <= now (memory: the LeaseUntil expiry edge) — the analysis of C03.R5, claimed here for the transition clause")
+	checkSweepGuard(c, "C02.R10")
 	checkEvictionSingleRow(c, "C02.R9", nil)
 	checkTerminalTimeParity(c, "C02.R8")
 }
